@@ -3,7 +3,9 @@
 package mproto
 
 import (
+	"runtime"
 	"sync"
+	"time"
 
 	"go.nanomsg.org/mangos/v3"
 )
@@ -18,16 +20,26 @@ type Event struct {
 
 // Proto is the mock protocol.
 type Proto struct {
-	mu      sync.Mutex
-	Refuse  bool
-	closed  bool
-	Events  []Event
-	SelfNum uint16
-	PeerNum uint16
+	mu     sync.Mutex
+	Refuse bool
+	closed bool
+	// CloseInAdd: while AddPipe is running, another goroutine closes the pipe (a peer that has already hung up is noticed by the
+	// protocol's own receiver at exactly this moment; a hook may have handed the pipe to a goroutine that closes it)
+	CloseInAdd bool
+	Events     []Event
+	SelfNum    uint16
+	PeerNum    uint16
 }
 
 // New returns a mock protocol with pair-like numbers.
 func New() *Proto { return &Proto{SelfNum: 16, PeerNum: 16} }
+
+// SetCloseInAdd switches the close-during-AddPipe behaviour.
+func (p *Proto) SetCloseInAdd(b bool) {
+	p.mu.Lock()
+	p.CloseInAdd = b
+	p.mu.Unlock()
+}
 
 // SetRefuse makes subsequent AddPipe calls fail.
 func (p *Proto) SetRefuse(b bool) { p.mu.Lock(); p.Refuse = b; p.mu.Unlock() }
@@ -55,7 +67,23 @@ func (p *Proto) AddPipe(pp mangos.ProtocolPipe) error {
 		return mangos.ErrProtoState
 	}
 	p.Events = append(p.Events, Event{Kind: "add", ID: pp.ID(), Pipe: pp})
+	cia := p.CloseInAdd
 	p.mu.Unlock()
+	if cia {
+		done := make(chan struct{})
+		go func() { _ = pp.Close(); close(done) }()
+		// give the Close 2 ms to run (spinning: the quiescence detector must see this goroutine as running; the core
+		// makes that Close wait on the pipe's mutex until the pipe is attached, which is fine)
+	spin:
+		for t0 := time.Now(); time.Since(t0) < 2*time.Millisecond; {
+			select {
+			case <-done:
+				break spin
+			default:
+				runtime.Gosched()
+			}
+		}
+	}
 	// like every real protocol: a receiver goroutine, which is how a transport failure is noticed
 	go func() {
 		for {
